@@ -20,7 +20,7 @@ func scale(tier string, quick, thorough int) int {
 
 // ---------------------------------------------------------------- C01: map semantics
 func genC01(r *rng, tier string, add func(g *G)) {
-	n := scale(tier, 60, 1200)
+	n := scale(tier, 60, 360)
 	for i := 0; i < n; i++ {
 		g := newG(r.fork(), fmt.Sprintf("C01/%d", i))
 		g.randomParams()
@@ -38,7 +38,7 @@ func genC01(r *rng, tier string, add func(g *G)) {
 		default:
 			g.keys = append(g.collidingKeys(70, 8, "e"), g.randomKeys(20)...)
 		}
-		ops := scale(tier, 120, 500) + g.r.intn(100)
+		ops := scale(tier, 120, 220) + g.r.intn(100)
 		if i%8 == 4 {
 			// Directed: a chain that is still longer than two full buckets when its bucket is split
 			// (the slot writer of index.split then links more than one new overflow bucket): 100+ keys
@@ -82,7 +82,7 @@ func genC01(r *rng, tier string, add func(g *G)) {
 // overflow buckets go to the free list); a later session takes a bucket from the free list without
 // changing the key count or the table shape; restarts in between; then more overflow allocations.
 func genC02FreeList(r *rng, tier string, add func(g *G)) {
-	n := scale(tier, 4, 40)
+	n := scale(tier, 4, 16)
 	for i := 0; i < n; i++ {
 		g := newG(r.fork(), fmt.Sprintf("C02/freelist/%d", i))
 		g.dumpEvery = 0
@@ -137,7 +137,7 @@ func genC02FreeList(r *rng, tier string, add func(g *G)) {
 // EMPTIED before a clean Close: the table keeps its shape (delete never unlinks buckets), and the
 // next session must find an empty, fully usable database.
 func genC02Emptied(r *rng, tier string, add func(g *G)) {
-	n := scale(tier, 3, 30)
+	n := scale(tier, 3, 12)
 	for i := 0; i < n; i++ {
 		g := newG(r.fork(), fmt.Sprintf("C02/emptied/%d", i))
 		g.dumpEvery = 0
@@ -175,7 +175,7 @@ func genC02Emptied(r *rng, tier string, add func(g *G)) {
 func genC02(r *rng, tier string, add func(g *G)) {
 	genC02FreeList(r, tier, add)
 	genC02Emptied(r, tier, add)
-	n := scale(tier, 50, 800)
+	n := scale(tier, 50, 300)
 	for i := 0; i < n; i++ {
 		g := newG(r.fork(), fmt.Sprintf("C02/%d", i))
 		g.randomParams()
@@ -187,7 +187,7 @@ func genC02(r *rng, tier string, add func(g *G)) {
 		}
 		sessions := 2 + g.r.intn(4)
 		for s := 0; s < sessions; s++ {
-			ops := g.r.intn(scale(tier, 80, 300))
+			ops := g.r.intn(scale(tier, 80, 150))
 			if g.r.chance(15) {
 				ops = 0 // Open followed by Close with no writes
 			}
@@ -294,7 +294,7 @@ func genCrash(prop string, epochsMax int) genFunc {
 			if i%6 == 5 {
 				maxSeg = 1 << 16
 			}
-			g.params(maxSeg, 512, []float32{0.0001, 0.1, 0.3}[g.r.intn(3)], g.r.chance(30))
+			g.params(maxSeg, []int{512, 512, 560, 650}[g.r.intn(4)], []float32{0.0001, 0.1, 0.3}[g.r.intn(3)], g.r.chance(30))
 			g.open()
 			g.keys = g.randomKeys(12)
 			if i%3 == 0 {
@@ -610,7 +610,7 @@ func flipBit(b []byte, bit int) []byte {
 }
 
 func genC08(r *rng, tier string, add func(g *G)) {
-	n := scale(tier, 120, 3000)
+	n := scale(tier, 120, 2000)
 	for i := 0; i < n; i++ {
 		g := newG(r.fork(), fmt.Sprintf("C08/%d", i))
 		g.dumpEvery = 0
@@ -699,13 +699,29 @@ func genC08(r *rng, tier string, add func(g *G)) {
 	}
 }
 
+// isHexField: a field as the interpreter prints byte strings ("-" = empty, else lower-case hex)
+func isHexField(x string) bool {
+	if x == "-" {
+		return true
+	}
+	if len(x)%2 != 0 {
+		return false
+	}
+	for _, c := range x {
+		if !(c >= '0' && c <= '9' || c >= 'a' && c <= 'f') {
+			return false
+		}
+	}
+	return true
+}
+
 // ---------------------------------------------------------------- C11: iteration
 func genC11(r *rng, tier string, add func(g *G)) {
 	n := scale(tier, 60, 1200)
 	for i := 0; i < n; i++ {
 		g := newG(r.fork(), fmt.Sprintf("C11/%d", i))
 		g.dumpEvery = 0
-		g.params([]int{700, 2048, 1 << 16}[g.r.intn(3)], 512, 0.0001, false)
+		g.params([]int{700, 2048, 1 << 16}[g.r.intn(3)], []int{512, 512, 560, 650}[g.r.intn(4)], 0.0001, false)
 		g.open()
 		switch i % 3 {
 		case 0:
@@ -725,7 +741,7 @@ func genC11(r *rng, tier string, add func(g *G)) {
 		for j := 0; j < len(g.ref); j++ {
 			out := resultLine(g.do("iternext q"))
 			f := strings.Fields(out)
-			ok := len(f) == 3 && f[0] == "iternext"
+			ok := len(f) == 3 && f[0] == "iternext" && isHexField(f[1]) && isHexField(f[2])
 			if ok {
 				k := string(interp.Unhex(f[1]))
 				v, live := g.ref[k]
@@ -772,7 +788,7 @@ func genC11(r *rng, tier string, add func(g *G)) {
 				break
 			}
 			f := strings.Fields(out)
-			ok := len(f) == 3
+			ok := len(f) == 3 && f[0] == "iternext" && isHexField(f[1]) && isHexField(f[2])
 			if ok {
 				k := string(interp.Unhex(f[1]))
 				ok = written[k][string(interp.Unhex(f[2]))]
@@ -800,7 +816,7 @@ func genC12(r *rng, tier string, add func(g *G)) {
 	for i := 0; i < n; i++ {
 		g := newG(r.fork(), fmt.Sprintf("C12/%d", i))
 		g.dumpEvery = 0
-		g.params([]int{600, 700, 1200, 1 << 16}[g.r.intn(4)], 512, 0.0001, g.r.chance(20))
+		g.params([]int{600, 700, 1200, 1 << 16}[g.r.intn(4)], []int{512, 512, 560, 650}[g.r.intn(4)], 0.0001, g.r.chance(20))
 		g.open()
 		g.keys = g.randomKeys(10)
 		if i%4 == 3 {
@@ -878,7 +894,7 @@ func genC15(r *rng, tier string, add func(g *G)) {
 	for i := 0; i < n; i++ {
 		g := newG(r.fork(), fmt.Sprintf("C15/%d", i))
 		g.dumpEvery = 0
-		g.params([]int{600, 800, 2048}[g.r.intn(3)], 512, []float32{0.0001, 0.3}[g.r.intn(2)], g.r.chance(25))
+		g.params([]int{600, 800, 2048}[g.r.intn(3)], []int{512, 512, 560, 650}[g.r.intn(4)], []float32{0.0001, 0.3}[g.r.intn(2)], g.r.chance(25))
 		g.open()
 		g.keys = g.randomKeys(6 + g.r.intn(10))
 		cycles := 3 + g.r.intn(scale(tier, 6, 25))
@@ -1032,7 +1048,7 @@ func (g *G) checkDirectory() {
 func genC16(r *rng, tier string, add func(g *G)) {
 	keyLens := []int{0, 1, 2, 255, 256, 65534, 65535}
 	longLens := []int{65536, 65537, 131071}
-	n := scale(tier, 16, 160)
+	n := scale(tier, 16, 64)
 	for i := 0; i < n; i++ {
 		g := newG(r.fork(), fmt.Sprintf("C16/%d", i))
 		g.dumpEvery = 0
@@ -1069,6 +1085,17 @@ func genC16(r *rng, tier string, add func(g *G)) {
 		}
 		g.put([]byte{}, []byte{}) // empty key, empty value: distinguishable from a missing key
 		g.get([]byte{})
+		// nil slices are empty slices: a nil value is a stored empty value, not a deletion
+		nk := mk(1 + g.r.intn(6))
+		g.keys = append(g.keys, nk)
+		g.put(nk, nil)
+		g.get(nk)
+		g.has(nk)
+		if i%2 == 0 {
+			g.put(nil, nil)
+			g.get([]byte{})
+		}
+		g.c.tag("nil_slice_arguments")
 		g.dump()
 		g.do("dumprecs")
 		// over-long keys: Put is rejected and changes nothing; Get/Has/Delete behave as for an absent key
